@@ -295,6 +295,7 @@ class Runner:
         self.bad_arg_types = None
         self.decoys = []
         self.params_snapshot = None
+        self.keep_results = False
 
     def snapshot(self):
         a = self.alg
@@ -341,7 +342,8 @@ class Runner:
         jds_before = [mk(r) for r in jds]
         types_before = [type(r) for r in jds]
         del self.log[:]
-        self.damage_last()
+        if not self.keep_results:        # a caller that COLLECTS the results leaves them alone
+            self.damage_last()
 
         def go():
             if self.alg is None:
@@ -366,6 +368,14 @@ class Runner:
             "input_jds_intact": (list(jds) == jds_before and [type(r) for r in jds] == types_before
                                  and self.snapshot() == self.params_snapshot),
         }
+        obs.update(self.read_out(out))
+        return obs
+
+    def read_out(self, out):
+        """what a returned object holds NOW (also used to re-observe a result kept from an earlier call)"""
+        from gcmpy.names.network_names import NetworkNames
+        tag = self.case["tag"]
+        obs = {}
         if tag == NETWORK:
             G = out.G
             obs["nodes"] = sorted(enc_raw(n) for n in G.nodes())
